@@ -129,7 +129,7 @@ def generate(rs: int, tier: str, index: int) -> dict:
         d2 = ch.sub("swapped").choice([">f8", ">i8", ">u4", ">c16", ">f4", ">i2", ">u8"])
     step: Dict[str, Any] = {"id": 0, "k": kind, "d1": d1, "d2": d2}
     if kind == "ctor":
-        how = ch.choice(["polynomial_dtype", "aspolynomial_dtype", "from_attributes_dtype", "from_attributes_mixed", "dict", "variable", "symbols", "astype", "from_data", "aspolynomial_poly_dtype", "polynomial_list", "aspolynomial_poly_names_dtype", "empty_dict", "raw_mixed_fields", "dict_mixed"])
+        how = ch.choice(["polynomial_dtype", "aspolynomial_dtype", "from_attributes_dtype", "from_attributes_mixed", "dict", "variable", "symbols", "astype", "from_data", "aspolynomial_poly_dtype", "polynomial_list", "aspolynomial_poly_names_dtype", "empty_dict", "raw_mixed_fields", "dict_mixed", "lowest_ints"])
         step["value"] = ch.sub("v").below(3)
         if cast_cell:
             how = CASTS[(index // len(DTYPES) ** 2) % len(CASTS)]
@@ -373,6 +373,25 @@ class Runner:
                     return numpoly.reshape(numpoly.polynomial(raw, names=q.names), shape)
 
                 return thunk_raw, Expect(expect_dtype, shape, _strip({key: c.astype(expect_dtype) for key, c in zip(keys, cols)})), how, {"mixed": True}
+            if how == "lowest_ints":
+                # a term whose only non-zero coefficients are the most negative value of a signed type (the one number
+                # whose magnitude the type cannot hold): it is a value like any other
+                dt = d1 if d1.kind == "i" else numpy.dtype("int64")
+                shape = tuple(p["shape"])
+                col = numpy.full(shape, numpy.iinfo(dt).min, dtype=dt)
+                if col.size > 1:
+                    col.flat[0] = 0
+                const = numpy.ones(shape, dtype=dt)
+                route = step.get("value", 0) % 3
+
+                def thunk_low():
+                    if route == 0:
+                        return numpoly.polynomial_from_attributes([[0], [1]], [const, col], ("q0",))
+                    if route == 1:
+                        return numpoly.polynomial({(0,): const, (1,): col}, names=("q0",))
+                    return numpoly.clean_attributes(numpoly.polynomial_from_attributes([[0], [1]], [const, col], ("q0",), retain_coefficients=True)).astype(dt)
+
+                return thunk_low, Expect(dt, shape, _strip({frozenset(): const, frozenset({("q0", 1)}): col})), how, {"d1": str(dt)}
             if how == "dict_mixed":
                 # a dictionary whose coefficient arrays differ in type, with a requested dtype: each value is cast on its
                 # own (an int64 beyond 2**53 must not travel through a common float64)
